@@ -74,6 +74,15 @@ inductive Fn where
     end of a single shift. -/
 inductive Prim where
   | decSpecial | singleShift
+  /-- resize(): `primary := vt.primaryScreen` -/
+  | snapshotPrimary
+  /-- resize(): `vt.activeScreen = vt.primaryScreen` -/
+  | activePrimary
+  /-- resize(): `switch vt.mode.smcup { case false: vt.activeScreen = vt.primaryScreen default: vt.activeScreen = vt.altScreen }` -/
+  | activeBySmcup
+  /-- resize(): the reflow loop nest over the old primary screen (its source text is fixed in the
+      translator; its meaning is the model's `reflow`) -/
+  | reflowOld
   deriving DecidableEq, Repr, Inhabited
 
 inductive Stmt where
@@ -110,6 +119,15 @@ inductive Stmt where
   | forTabs (body : Stmt)
   /-- `for i := len(vt.tabStop) - 1; i >= 0; i -= 1 { body }` (`vt.tabStop[i]` is `Ex.tab`) -/
   | forTabsDown (body : Stmt)
+  /-- resize(): `vt.altScreen = make([][]cell, h)` -/
+  | allocAlt (h : Ex)
+  /-- resize(): `vt.primaryScreen = make([][]cell, h)` -/
+  | allocPrimary (h : Ex)
+  /-- resize(): `for i := range vt.altScreen { vt.altScreen[i] = make([]cell, w); vt.primaryScreen[i] = make([]cell, w) }` -/
+  | fillRows (w : Ex)
+  /-- resize(): the loop over `[]*cursorState{&vt.primaryState, &vt.altState}` clamping both saved
+      cursors to `row(h)-1` / `column(w)-1` -/
+  | clampSaved (h w : Ex)
   /-- `tabs := []column{}` (a local slice of tab stops) -/
   | tabsNew
   /-- `tabs = append(tabs, tab)` inside a loop over vt.tabStop -/
